@@ -38,7 +38,13 @@ def gen_make(rng):
         return dict(t="dgm", bars=rand_bars(rng, 0, 14, rng.randint(1, 4)))
     if k in ("sub", "lin"):
         a = dict(t="dgm", bars=rand_bars(rng, 0, 14, rng.randint(1, 4)))
-        b = dict(t="dgm", bars=rand_bars(rng, 0, 14, rng.randint(1, 4))) if rng.random() < 0.8 else dict(t="cp", cps=rand_cp(rng, 0, 8))
+        if rng.random() < 0.35:
+            # two diagrams sharing their dominant bars and differing only underneath: the top depths of P - Q cancel exactly
+            top = [[0, 14]] + ([[2, 12]] if rng.random() < 0.5 else [])
+            a = dict(t="dgm", bars=top + rand_bars(rng, 2, 12, rng.randint(1, 2)))
+            b = dict(t="dgm", bars=top + rand_bars(rng, 2, 12, rng.randint(1, 2)))
+        else:
+            b = dict(t="dgm", bars=rand_bars(rng, 0, 14, rng.randint(1, 4))) if rng.random() < 0.8 else dict(t="cp", cps=rand_cp(rng, 0, 8))
         if k == "sub":
             return dict(t="sub", a=a, b=b)
         return dict(t="lin", a=a, b=b, ca=rng.choice([1.0, 2.0, -1.0, 0.5]), cb=rng.choice([-1.0, -2.0, 1.0, -0.5]))
@@ -192,7 +198,7 @@ def run(ctx):
     makes = [gen_make(rng) for _ in range(n)]
     for _ in range(n // 5):
         makes.append(dict(t="stab", X=rand_bars(rng, 0, 14, rng.randint(1, 4)), Y=rand_bars(rng, 0, 14, rng.randint(1, 4))))
-    embs = [EXACT_EMBS[i % 4] for i in range(len(makes))]
+    embs = [EXACT_EMBS[i % 6] for i in range(len(makes))]      # incl. scales 2^-50 and 2^30 (absolute tolerances in the code show there)
     validate(ctx, makes, embs, "V")
 
 
